@@ -1,7 +1,7 @@
 (* Props/C10.v — C10: the JSON parser (json/parse.go).
    Statements only; each is closed by [exact] of a lemma proved in coq/theories/Json/. *)
 From Verif Require Import Common.Base Common.Lx Json.Model Json.Lex Json.Spec Json.Grammar Json.Proofs Json.Trace
-  Json.AcceptLex Json.Accept Json.Sticky Json.Rejects.
+  Json.GrammarProofs Json.AcceptLex Json.Accept Json.Sticky Json.Rejects.
 
 (* MAIN THEOREM.  Every document of the RFC 8259 grammar (Json/Grammar.v: whitespace explicit at the six
    structural positions; all escape and number forms) is parsed to the end of the input without a parse
@@ -13,6 +13,13 @@ Theorem json_accepts_valid :
                         err_kind final = 1 /\ rejoin units = strip_ws d.
 Proof. exact json_accepts_valid_proof. Qed.
 Print Assumptions json_accepts_valid.
+
+(* The executable recogniser valid_b (the function diffed against encoding/json.Valid on every run) accepts
+   exactly the documents of the inductive grammar. *)
+Theorem json_grammar_valid_b :
+  forall d, valid_b d = true <-> value d.
+Proof. exact valid_b_value_proof. Qed.
+Print Assumptions json_grammar_valid_b.
 
 (* No call of Next or State() panics, for every byte string and any number of calls (also after errors):
    the trace of n calls exists, and State() is defined (the state stack is never empty) after each call. *)
@@ -154,7 +161,7 @@ Print Assumptions json_rejects_nonstring_key_partial.
 (* the missing part is FALSE of the code: an array or object in key position is returned as units; the
    invalid document  { [ 1 ] }  is parsed to the end of the input with Err() = io.EOF *)
 Theorem json_rejects_container_key_refuted :
-  exists d units final, valid_b d = false /\ drive (S (length d)) (json_init d) = Done units final /\
+  exists d units final, ~ value d /\ drive (S (length d)) (json_init d) = Done units final /\
     err_kind final = 1 /\ map sg units = [G_StartObject; G_StartArray; G_Number; G_EndArray; G_EndObject].
 Proof. exact nonstring_key_container_refuted_proof. Qed.
 Print Assumptions json_rejects_container_key_refuted.
